@@ -178,7 +178,7 @@ Section Scheme.
           match h_cur st with
           | [] => None                                      (* i <= lastNewline *)
           | _ =>
-              let line := rev (h_cur st) in
+              let line := frev (h_cur st) in
               match h_nl st with
               | O => if eqb_listN line scheme_name
                      then scan t (mkHst 1 [] (h_man st) (h_mac st)) else None
